@@ -45,6 +45,9 @@ Resolve(name, st) ==
   ELSE IF HHas(st.locals, name) THEN HGet(st.locals, name)
   ELSE LET g == LayerFind(st.layers, 1, name) IN
        IF g.found THEN g.v
+       \* built-in dynamic objects sit between the globals and the counters
+       \* (render_context.md); their text is the clock's, written @now@ / @today@ here
+       ELSE IF name \in {"now", "today"} THEN Str("@" \o name \o "@")
        ELSE IF HHas(st.counters, name) THEN HGet(st.counters, name)
        ELSE Undef
 
